@@ -20,8 +20,9 @@ ASSUME = [
 
 MC_LINES = ["SPECIFICATION Spec", "PROPERTIES ExtractOK Progress Termination", "CHECK_DEADLOCK FALSE"]
 GEN_LINES = ["SPECIFICATION Spec", "ACTION_CONSTRAINT Emit", "CHECK_DEADLOCK FALSE"]
-UNITS = {"CB": 4, "CM": 8, "CO": 0, "CW": 0}
-BYTES = {"CB": 4, "CM": 6, "CO": 1, "CW": 1}
+PRES = {"Presences": {"none", "under", "over"}, "SendOverLimitPresence": False}
+UNITS = dict(PRES, CB=4, CM=8, CO=0, CW=0)
+BYTES = dict(PRES, CB=4, CM=6, CO=1, CW=1)
 KF_TINY = "tiny-blocks-batch-over-message-limit"
 KF_OVERFLOW = "overflowing-varint-prefix-delivered"
 
@@ -80,7 +81,7 @@ def classify(seg, idx):
         return "message-over-limit" if ev["len"] > head["M"] else "block-duplicated-or-out-of-order"
     if e == "extract":
         return "extract-next-batch-%s" % ("none-with-fitting-left" if not ev["some"] else "loses-or-reorders-or-stalls")
-    return {"enc": "blocks-message-content", "panic": "panic"}.get(e, "unexplained-%s" % e)
+    return {"enc": "blocks-message-content", "panic": "panic", "abort": "send-response-aborted-by-own-message"}.get(e, "unexplained-%s" % e)
 
 
 def what_of(seg, idx):
@@ -138,7 +139,7 @@ def harness_args(ctx, paths):
     return ["--classes", paths["classes"], "--per-class", 6 if q else 40, "--messages", paths["msgs"], "--per-msg", 4 if q else 12,
             "--behaviours", paths["behs"], "--fn-real-scale", 40 if q else 1500,
             "--random", 600 if q else 20000, "--len", 24,
-            "--e2e-sample", 40 if q else 1200, "--e2e-random", 40 if q else 1500, "--e2e-tiny", 3 if q else 9,
+            "--e2e-sample", 40 if q else 1200, "--e2e-random", 40 if q else 1500, "--e2e-tiny", 3 if q else 9, "--e2e-presence", 3 if q else 12,
             "--seed", ctx.seed, "--out", paths["trace"]]
 
 
@@ -301,6 +302,7 @@ def selftest(ctx):
     # negative models
     negs = [
         ("bytes-strict", "BitswapMC.tla", dict(BYTES, Sizes={0, 1, 2, 5}, MaxQ=5), MC_LINES + ["INVARIANTS PropInv"]),
+        ("presence-over-limit-sent", "BitswapMC.tla", dict(UNITS, Sizes={0, 2, 5}, MaxQ=3, SendOverLimitPresence=True), MC_LINES + ["INVARIANTS PropInv"]),
         ("cert-strict", "BitswapCertMC.tla", {"KnownFindings": False}, ["SPECIFICATION Spec", "INVARIANTS TableOK", "CHECK_DEADLOCK FALSE"]),
         ("certmsg-zip-by-position", "BitswapMsgMC.tla", {"MaxBlocks": 3, "ZipByPosition": True}, ["SPECIFICATION Spec", "INVARIANTS MsgOK", "CHECK_DEADLOCK FALSE"]),
     ]
